@@ -417,6 +417,9 @@ def pad(
     ):
         # TODO: Think about case when boundary is specified but boundary_width is None or (0,0).
         # TODO: No padding would occur in that situation. Should we warn the user?
+        # (a vector component is handed back as the array itself, as on the padding path)
+        if isinstance(data, dict):
+            (data,) = data.values()
         return data
 
     # TODO: Refactor, if the max value is 0, complain.
